@@ -75,7 +75,18 @@ fn is_dir(tree: &Tree, p: &str) -> bool {
 }
 
 fn is_file(tree: &Tree, p: &str) -> bool {
-    tree.files.contains_key(p)
+    // symbolic links are followed (std::path::Path::is_file semantics)
+    match tree.links.get(p) {
+        Some(target) => tree.files.contains_key(target),
+        None => tree.files.contains_key(p),
+    }
+}
+
+fn file_bytes<'a>(tree: &'a Tree, p: &str) -> &'a Vec<u8> {
+    match tree.links.get(p) {
+        Some(target) => &tree.files[target],
+        None => &tree.files[p],
+    }
 }
 
 fn assemble(text_or_binary: &[u8]) -> Result<Vec<u8>, ()> {
@@ -141,7 +152,7 @@ fn expect_key(tree: &Tree, root: &str, key: &KeySpec, overrides: &HashMap<String
         return (Outcome::NotJudged("wasm-path-is-directory"), "wasm-directory");
     }
     if is_file(tree, &wasm_path) {
-        return (Outcome::Bytes(tree.files[&wasm_path].clone()), "wasm-file");
+        return (Outcome::Bytes(file_bytes(tree, &wasm_path).clone()), "wasm-file");
     }
     (Outcome::Missing, "missing")
 }
@@ -301,6 +312,18 @@ pub fn run(run: &mut Run) {
                 tree.dir(format!("{base}.wasm"));
                 "directory"
             }
+            7 if !enumerated => {
+                // a symbolic link to a component stored elsewhere
+                let b = comp(t);
+                let target = format!("store/linked{i}.wasm");
+                tree.file(target.clone(), b);
+                tree.link(format!("{base}.wasm"), target);
+                "symlink"
+            }
+            8 if !enumerated => {
+                tree.link(format!("{base}.wasm"), format!("store/nowhere{i}.wasm"));
+                "dangling-symlink"
+            }
             _ => "absent",
         };
         let wat_label = match choose(t, 16, presets) {
@@ -431,6 +454,9 @@ pub fn run(run: &mut Run) {
     for d in &tree.dirs {
         t.event(format!("  dir  {d}"));
     }
+    for (l, target) in &tree.links {
+        t.event(format!("  link {l} -> {target}"));
+    }
     for (k, (o, row)) in keys.iter().zip(outcomes.iter()) {
         let o = match o {
             Outcome::Bytes(b) => format!("bytes({})", b.len()),
@@ -455,6 +481,8 @@ pub fn run(run: &mut Run) {
             ("wat:text-bad", "invalid_text"),
             ("wat:binary", "binary_in_text_file"),
             ("decoy:present", "decoy_at_set_extension_path"),
+            ("wasm:symlink", "symlink_in_place_of_file"),
+            ("wasm:dangling-symlink", "dangling_symlink"),
         ] {
             if c.contains(needle) {
                 run.fault(kind);
